@@ -473,9 +473,13 @@ func runC04(c *explore.Ctx) {
 		}
 		// a loaded segment is a segment too: WriteTo on it (memory-backed and file-backed) succeeds,
 		// reports what it wrote, and what it wrote loads and reads like the original
-		for bi, l2 := range []segment.Segment{lm, lf} {
-			backing := [...]string{"mem", "file"}[bi]
-			b2, n2, err := persist(l2)
+		for bi, l2 := range []segment.Segment{lm, lf, lm, lf} {
+			backing := [...]string{"mem", "file", "mem/open-channel", "file/open-channel"}[bi]
+			var ch chan struct{}
+			if bi >= 2 {
+				ch = make(chan struct{}) // open, never closed: as good as nil
+			}
+			b2, n2, err := persistCh(l2, ch)
 			c.R.Transitions++
 			if err != nil {
 				c.Violate(scope, idx, sigOf("C04", "persist-loaded-"+backing, "error: "+err.Error())+zs, err.Error(), st.desc)
@@ -633,10 +637,14 @@ func runC11(c *explore.Ctx) {
 				// the same object persisted again must write the same file (a segment is immutable,
 				// however often it is persisted)
 				for again := 2; again <= 3; again++ {
-					b3, n3, err := persist(cur)
+					var ch chan struct{}
+					if again == 3 {
+						ch = make(chan struct{}) // an open channel that is never closed
+					}
+					b3, n3, err := persistCh(cur, ch)
 					if err != nil || n3 != int64(len(b3)) || !bytes.Equal(b3, b) {
 						closeF()
-						c.Violate(scope, idx, "C11/repersist-same-object", fmt.Sprintf("round %d (%s-backed): WriteTo call #%d on the same segment: err=%v n=%d len=%d identical=%v", round, backing, again, err, n3, len(b3), bytes.Equal(b3, b)), st.desc)
+						c.Violate(scope, idx, "C11/repersist-same-object", fmt.Sprintf("round %d (%s-backed): WriteTo call #%d (the third with an open channel) on the same segment: err=%v n=%d len=%d identical=%v", round, backing, again, err, n3, len(b3), bytes.Equal(b3, b)), st.desc)
 						return
 					}
 				}
@@ -653,9 +661,13 @@ func runC11(c *explore.Ctx) {
 		}
 		if st.orig != nil {
 			for again := 2; again <= 3; again++ {
-				b3, n3, err := persist(st.orig)
+				var ch chan struct{}
+				if again == 3 {
+					ch = make(chan struct{})
+				}
+				b3, n3, err := persistCh(st.orig, ch)
 				if err != nil || n3 != int64(len(b3)) || !bytes.Equal(b3, b) {
-					c.Violate(scope, idx, "C11/repersist-same-object/built", fmt.Sprintf("WriteTo call #%d on the same built segment: err=%v n=%d len=%d identical=%v", again, err, n3, len(b3), bytes.Equal(b3, b)), st.desc)
+					c.Violate(scope, idx, "C11/repersist-same-object/built", fmt.Sprintf("WriteTo call #%d (the third with an open channel) on the same built segment: err=%v n=%d len=%d identical=%v", again, err, n3, len(b3), bytes.Equal(b3, b)), st.desc)
 					return
 				}
 			}
